@@ -15,9 +15,7 @@ from __future__ import annotations
 
 import ast
 import json
-import os
 import subprocess
-import sys
 import threading
 import time
 import types
@@ -198,10 +196,12 @@ class Job:
 class World:
     """one executor, its jobs and shutdown callers, with every blocking primitive under the scheduler"""
 
-    def __init__(self, halmos_mods, cfg: str):
+    def __init__(self, halmos_mods, cfg: str, timeouts=None):
         self.P, self.S = halmos_mods
         jobs, waits = cfg.split(":")
-        self.jobs = [Job(c) for c in jobs.split(".")]
+        codes = jobs.split(".")
+        timeouts = list(timeouts or [])
+        self.jobs = [Job(c, timeouts[n] if n < len(timeouts) else None) for n, c in enumerate(codes)]
         self.waits = [] if waits == "-" else [w == "1" for w in waits]
         self.sched = Sched()
         self.procs: dict[int, SimProc] = {}
@@ -705,11 +705,19 @@ class Run:
         self.ops = []
 
 
-def run_real(cfg: str, chooser, max_steps=400, maximal=True) -> Run:
+TIMEOUT_POOL = [7.5]
+
+
+def run_real(cfg: str, chooser, max_steps=400, timeouts=None) -> Run:
     """chooser(step_index, enabled_labels_sorted) -> label or None (stop)"""
     P, S = mods()
     r = Run(cfg)
-    w = World((P, S), cfg)
+    if timeouts is None:
+        # deterministic spread over the pool (configured time limits; the simulated process ignores the magnitude)
+        h = sum(ord(ch) for ch in cfg)
+        timeouts = [TIMEOUT_POOL[(h + 3 * n) % len(TIMEOUT_POOL)] for n in range(cfg.count(".") + 1)]
+    r.timeouts = timeouts
+    w = World((P, S), cfg, timeouts)
     try:
         w.start_threads()
         alive_after = {}       # k -> True once shutdown caller k has finished
@@ -831,7 +839,7 @@ def check_final(w: World, r: Run, terminal: bool):
             p = w.procs.get(i)
             if p is not None and p.state == "running":
                 r.spec.append(("result-set-while-process-running", f"job {i}: set_result executed while its process is still running"))
-            if p is not None and not (p.stdout.closed and p.stderr.closed) and p.state == "killed":
+            if terminal and p is not None and not (p.stdout.closed and p.stderr.closed) and p.state == "killed":
                 r.spec.append(("killed-process-streams-left-open", f"job {i}: pipes of a killed process not closed"))
     if terminal:
         stuck = [t.name for t in w.sched.threads.values() if t.state != "finished"]
@@ -960,8 +968,9 @@ def base_configs():
     cfgs = [f"{j}:{s}" for j in one for s in shs]
     two = [("tifu", "Tifs"), ("tiFu", "tifu"), ("Tifu", "tIfu"), ("TIfu", "tifk")]
     cfgs += [f"{a}.{b}:{s}" for a, b in two for s in ["0", "1", "01"]]
-    three = [("tifu", "Tifs", "tiFg"), ("Tifu", "tifu", "tIfk")]
+    three = [("tifu", "Tifs", "tiFg"), ("Tifu", "tifu", "tIfk"), ("tifu", "tifu", "tifu")]
     cfgs += [f"{a}.{b}.{c}:{s}" for a, b, c in three for s in ["0", "1"]]
+    cfgs += ["tifu.Tifu.tifu.tIfu:0", "tifs.tifu.Tifk.tifu:1"]
     return cfgs
 
 
@@ -987,15 +996,35 @@ def real_process_runs(ctx, n_runs, literals):
         "echo": (["sh", "-c", "echo unsat"], 5.0), "children": (["sh", "-c", "sleep 30 & sleep 30 & wait"], 0.1),
     }
     names = sorted(kinds)
+    # exceptions that escape a thread of the code under test (e.g. psutil failing while it scans /proc)
+    escaped = []
+    old_hook = threading.excepthook
+    threading.excepthook = lambda a: escaped.append(a)
+    try:
+        _real_process_runs(ctx, n_runs, literals, P, rng, kinds, names, escaped)
+    finally:
+        threading.excepthook = old_hook
+
+
+def _real_process_runs(ctx, n_runs, literals, P, rng, kinds, names, escaped):
     for run in range(n_runs):
+        del escaped[:]
         mode = rng.choice(["nowait", "nowait", "wait"])
         n = rng.randint(1, 4)
         pool = [k for k in names if not (mode == "wait" and k in ("sleep-long", "ignore-term"))]
         chosen = [rng.choice(pool) for _ in range(n)]
         if run == 0:
-            mode, chosen = "nowait", ["ignore-term", "sleep-long", "timeout"]
+            mode, chosen = "nowait", ["sleep-long", "sleep-long", "timeout"]
         if run == 1:
             mode, chosen = "wait", ["echo", "timeout", "children"]
+        # `overlap`: call shutdown while worker threads may not have reached Popen yet (the cancel-before-Popen window);
+        # otherwise wait until every worker has started its process (side condition of the `_partial` theorem)
+        overlap = (run == 0) or rng.random() < 0.25
+        if overlap:
+            # commands that fork (sh -c ...) are left out here: cancel() lists the children once, a child forked
+            # after that survives and keeps the pipe open (OS-level race outside the model, see ASSUMPTIONS)
+            simple = ("true", "false", "sleep-short", "sleep-long", "timeout", "missing-binary")
+            chosen = [k if k in simple else ("sleep-short" if mode == "wait" else "sleep-long") for k in chosen]
         ex = P.PopenExecutor()
         counts = []
         futs = []
@@ -1012,29 +1041,73 @@ def real_process_runs(ctx, n_runs, literals):
                 return real(r)
 
             f.set_result = counting
+            real_cancel = f.cancel
+
+            def cancel(real_cancel=real_cancel):
+                try:
+                    return real_cancel()
+                except BaseException as e:  # noqa: BLE001 - recorded (the pool of shutdown() would swallow it), re-raised
+                    escaped.append(types.SimpleNamespace(exc_value=e))
+                    raise
+
+            f.cancel = cancel
             counts.append(cnt)
             futs.append(f)
             ex.submit(f)
-        time.sleep(rng.choice([0.0, 0.01, 0.12]))
+        if not overlap:
+            t_end = time.time() + 5
+            while time.time() < t_end and not all(f.process is not None or f.done() for f in futs):
+                time.sleep(0.002)
+            # let `sh -c` commands install their trap / fork their children
+            time.sleep(rng.choice([0.1, 0.15, 0.25]) if any(kinds[k][0][0] == "sh" for k in chosen) else rng.choice([0.0, 0.01, 0.1]))
         raised = None
         try:
             ex.shutdown(wait=(mode == "wait"))
         except BaseException as e:  # noqa: BLE001
             raised = e
-        alive = [k for k, f in zip(chosen, futs) if f.process is not None and f.process.poll() is None]
-        ctx.count(f"real:{mode}")
+
+        def dead_within(f, secs):
+            if f.process is None:
+                return True
+            try:
+                f.process.wait(timeout=secs)
+                return True
+            except subprocess.TimeoutExpired:
+                return False
+
+        # a SIGKILLed process needs a moment to disappear: "alive" = still there 2 s later
+        alive = [k for k, f in zip(chosen, futs) if not dead_within(f, 0 if raised is not None else 2.0)]
+        ctx.count(f"real:{mode}:{'overlap' if overlap else 'started'}")
         for kname in chosen:
             ctx.count(f"real-job:{kname}")
-        ctx.case(("real", mode, tuple(chosen)), nontrivial=len(chosen) > 1)
-        replay = {"kind": "real", "mode": mode, "jobs": chosen}
+        ctx.case(("real", mode, overlap, tuple(chosen)), nontrivial=len(chosen) > 1)
+        replay = {"kind": "real", "mode": mode, "jobs": chosen, "overlap": overlap}
+        time.sleep(0.01)
+        env_fault = [a for a in escaped if not isinstance(a.exc_value, (P.ShutdownError,))]
+        if env_fault or (raised is not None and mode == "nowait"):
+            # outside the stated assumptions (cancel() raised something else than psutil.NoSuchProcess, typically psutil
+            # tripping over an unrelated process while scanning /proc): recorded, not judged
+            kind = type(env_fault[0].exc_value).__name__ if env_fault else type(raised).__name__
+            ctx.count(f"real:assumption-broken:cancel-raised-{kind}")
+            ctx.note(f"real-process run {run}: exception {kind} escaped cancel()/worker thread; when this happens in the worker's "
+                     "`finally`, set_result is skipped and result() never returns (not judged: outside the assumptions)")
+            for f in futs:
+                if f.process is not None:
+                    with __import__("contextlib").suppress(Exception):
+                        f.process.kill()
+            continue
         if raised is not None and mode == "wait":
             ctx.count("real:shutdown-raised")
             if alive:
                 ctx.violation(KEY_JOIN, f"real processes: shutdown(wait=True) raised {type(raised).__name__} while {alive} still run", replay)
-        elif raised is not None:
-            ctx.violation("real:shutdown-nowait-raised", f"shutdown(wait=False) raised {raised!r}", replay)
+        elif alive and overlap and mode == "nowait":
+            ctx.violation(KEY_CANCEL, f"real processes: {alive} alive after shutdown(wait=False) returned (shutdown called right after submit)", replay)
         elif alive:
             ctx.violation(f"real:alive-after-shutdown-{mode}", f"processes {alive} alive after shutdown({mode}) returned", replay)
+        if alive or raised is not None:
+            for f in futs:
+                if f.process is not None:
+                    f.cancel()
         # everything finishes now: results exactly once, timeouts are TimeoutExpired
         deadline = time.time() + 10
         for kname, f, cnt in zip(chosen, futs, counts):
@@ -1050,14 +1123,14 @@ def real_process_runs(ctx, n_runs, literals):
                 continue
             if cnt[0] != 1:
                 ctx.violation("real:result-once", f"{kname}: set_result executed {cnt[0]} times", replay)
-            if kname in ("timeout", "ignore-term-timeout", "children") and mode == "wait" and not isinstance(exc, subprocess.TimeoutExpired):
+            if kname in ("timeout", "ignore-term-timeout", "children") and mode == "wait" and raised is None and not isinstance(exc, subprocess.TimeoutExpired):
                 ctx.violation("real:timeout-not-TimeoutExpired", f"{kname}: result() gave {exc!r} instead of raising TimeoutExpired", replay)
             if kname == "missing-binary" and not isinstance(exc, FileNotFoundError):
                 ctx.violation("real:popen-error-lost", f"{kname}: result() gave {exc!r}", replay)
-            if kname == "echo" and exc is None and mode == "wait" and f.result()[0] != "unsat\n":
+            if kname == "echo" and exc is None and mode == "wait" and raised is None and f.result()[0] != "unsat\n":
                 ctx.violation("real:stdout-lost", f"echo: stdout {f.result()[0]!r}", replay)
-            if f.process is not None and f.process.poll() is None:
-                ctx.violation("real:alive-after-result", f"{kname}: process alive after its result was delivered", replay)
+            if not dead_within(f, 2.0):
+                ctx.violation("real:alive-after-result", f"{kname}: process alive 2 s after its result was delivered", replay)
                 f.cancel()
         try:
             ex.submit(P.PopenFuture(["true"]))
@@ -1076,11 +1149,33 @@ def report(ctx, variant, r: Run, source):
         if key in seen:
             continue
         seen.add(key)
-        ctx.violation(key, what, {"kind": "schedule", "variant": variant, "cfg": r.cfg, "labels": r.labels, "source": source})
+        ctx.violation(key, what, {"kind": "schedule", "variant": variant, "cfg": r.cfg, "labels": r.labels,
+                                  "timeouts": getattr(r, "timeouts", None), "source": source})
 
 
 def follow(labels):
     return lambda n, en: labels[n] if n < len(labels) else None
+
+
+class FollowThenFinish:
+    """follow a schedule of the model; if the real code cannot take the next step, remember where, and run the
+    threads to completion with a default scheduler so that the property is still checked on what the code does"""
+
+    def __init__(self, labels):
+        self.labels = labels
+        self.diverged = None
+
+    def __call__(self, n, en):
+        if self.diverged is None:
+            if n >= len(self.labels):
+                return None
+            if self.labels[n] in en:
+                return self.labels[n]
+            self.diverged = f"step {n}: {self.labels[n]} is not enabled on the real code; enabled: {en}"
+        if not en:
+            return None
+        threads = [e for e in en if not e.startswith("e")]
+        return threads[0] if threads else en[0]
 
 
 def correspond(ctx):
@@ -1088,6 +1183,7 @@ def correspond(ctx):
     drv = ctx.lean("Popen")
     literals = harvest_literals()
     ctx.note(f"numeric literals of processes.py / solve_low_level (+-1): {literals}")
+    TIMEOUT_POOL[:] = sorted(set([7.5, 60.0, 0.001] + [float(x) for x in literals]))
 
     variant = detect_variant()
     ctx.note(f"variant of the code under test (submitLocked cancelFlag joinFixed) = {variant}")
@@ -1095,21 +1191,16 @@ def correspond(ctx):
     ctx.extra["variant"] = variant
 
     # --- 0. the witnesses of the `_cex` theorems, replayed on the real code -------------------------------------------
-    wit = {}
-    for name, rep in zip(["submit", "cancel", "join", "joinsnap"],
-                         drv.ask(["witness submit", "witness cancel", "witness join", "witness joinsnap"])):
-        _ok, v, cfg, labels = rep.split(" ")
-        wit[name] = (v, cfg, labels.split(","))
+    names = ["submit", "cancel", "join", "joinsnap"]
     expected_key = {"submit": KEY_SUBMIT, "cancel": KEY_CANCEL, "join": KEY_JOIN, "joinsnap": KEY_JOINSNAP}
-    relevant_bit = {"submit": 0, "cancel": 1, "join": 2, "joinsnap": 2}
-    for name, (v, cfg, labels) in wit.items():
-        applicable = v == variant
-        ctx.count(f"witness:{name}:{'replayed' if applicable else 'not-applicable(code repaired or other variant)'}")
-        if not applicable:
-            if variant[relevant_bit[name]] == "0" and name != "joinsnap":
-                # the defect's site is unrepaired but another site changed: the enumerated schedules below cover it
-                ctx.note(f"witness {name} is stated for variant {v}; code is {variant}: covered by the enumeration only")
+    for name, rep in zip(names, drv.ask([f"witness {n} {variant}" for n in names])):
+        if rep == "none":
+            # the model says this variant of the code does not have the defect (proved for the repaired sites)
+            ctx.count(f"witness:{name}:not-applicable-to-variant-{variant}")
             continue
+        _ok, v, cfg, labels = rep.split(" ")
+        labels = labels.split(",")
+        ctx.count(f"witness:{name}:replayed")
         r = run_real(cfg, follow(labels))
         ctx.case(("witness", name))
         if r.error:
@@ -1131,7 +1222,7 @@ def correspond(ctx):
             d = json.loads(p.read_text())
             if d.get("kind", "schedule") != "schedule":
                 continue
-            r = run_real(d["cfg"], follow_loose(d["labels"]))
+            r = run_real(d["cfg"], follow_loose(d["labels"]), timeouts=d.get("timeouts"))
             runs.append((r, f"corpus:{p.name}"))
             ctx.count("source:corpus")
 
@@ -1139,9 +1230,9 @@ def correspond(ctx):
     rng = ctx.rng
     delays = ctx.scale(2, 3)
     cfgs = base_configs()
-    n_random_cfg = ctx.scale(10, 120)
+    n_random_cfg = ctx.scale(10, 60)
     cfgs += [random_config(rng) for _ in range(n_random_cfg)]
-    cap = ctx.scale(70, 1500)          # schedules kept per (cfg, rotation)
+    cap = ctx.scale(50, 400)           # schedules kept per (cfg, rotation)
     reqs, meta = [], []
     for cfg in cfgs:
         njobs = cfg.split(":")[0].count(".") + 1
@@ -1165,7 +1256,10 @@ def correspond(ctx):
         else:
             exhaustive_cfgs += 1
         for labels in scheds:
-            r = run_real(cfg, follow(labels))
+            ch = FollowThenFinish(labels)
+            r = run_real(cfg, ch)
+            if ch.diverged:
+                r.error = ch.diverged
             runs.append((r, f"enum:rot{rot}:d{d}"))
         ctx.count(f"enum-jobs:{cfg.split(':')[0].count('.') + 1}", len(scheds))
         ctx.count(f"enum-shutdown:{cfg.split(':')[1]}", len(scheds))
@@ -1175,7 +1269,7 @@ def correspond(ctx):
              f"{exhaustive_cfgs} pairs run in full (cap {cap})")
 
     # --- 3. random walks chosen on the real code ------------------------------------------------------------------------
-    n_walks = ctx.scale(400, 6000)
+    n_walks = ctx.scale(300, 6000)
     for _ in range(n_walks):
         cfg = random_config(rng) if rng.random() < 0.7 else rng.choice(base_configs())
         stick = rng.choice([0.0, 0.5, 0.8, 0.95])
@@ -1226,7 +1320,7 @@ def correspond(ctx):
     ctx.sample({"cfg": runs[-1][0].cfg, "labels": runs[-1][0].labels, "final": runs[-1][0].final})
 
     # --- 5. real subprocesses ------------------------------------------------------------------------------------------
-    real_process_runs(ctx, ctx.scale(24, 500), literals)
+    real_process_runs(ctx, ctx.scale(16, 300), literals)
 
     if mismatch:
         raise RuntimeError("model and real code disagree (model stale, or the code under test changed): " + mismatch)
@@ -1266,7 +1360,7 @@ def replay(ctx, data) -> bool:
             for f in futs:
                 f.cancel()
         return len(ctx.violations) > before
-    r = run_real(d["cfg"], follow_loose(d["labels"]))
+    r = run_real(d["cfg"], follow_loose(d["labels"]), timeouts=d.get("timeouts"))
     keys = {k for k, _ in r.spec}
     want = data.get("key")
     return (want in keys) if want else bool(keys)
